@@ -153,8 +153,11 @@ def run(prop, tier):
                     "(arguments: A,B,C = valid pubkeys, i_* = malformed ones, see harness/cmd/policy/main.go)"))
             ver.add(sig, rp)
         # ---- design-model predictions against the real code (TLC-exported schedules, step by step)
+        # a step where the model predicts nothing and the code breaks a clause is a violation (reported above);
+        # a step where the model predicts a defect the code does not show (or shows differently) is DRIFT of
+        # the design model against the code: the model must be brought back to what the code does
         agree = disagree = 0
-        dis = []
+        dis, drift = [], []
         for m in metas:
             if m["src"] != "tlc":
                 continue
@@ -165,8 +168,11 @@ def run(prop, tier):
                     agree += 1
                 else:
                     disagree += 1
+                    rec = dict(cls=m["cls"], ops=m["ops"][:i], predicted=sorted(want), observed=sorted(got))
                     if len(dis) < 5:
-                        dis.append(dict(cls=m["cls"], ops=m["ops"][:i], predicted=sorted(want), observed=sorted(got)))
+                        dis.append(rec)
+                    if want and len(drift) < 5:
+                        drift.append(rec)
         observed_tlc = set(s for s, (t, i) in first.items() if metas[t]["src"] == "tlc")
         rnd = random.Random(vp.seed())
         samples = []
@@ -184,7 +190,7 @@ def run(prop, tier):
             samples=samples,
             exhaustive=False,
             evaluations=steps, distinct_nontrivial=len(kept),
-            rule="TLC explores every sequence of <= %d public operations (one less from file classes the node cannot have written itself; "
+            rule="TLC explores every sequence of <= %d public operations (one less from file classes with hand-written lines or without final newline; "
                  "add/remove allowlisted or suspicious peer with 2 valid "
                  "and 1 invalid pubkey, disable, enable, reload, restart) from %d pre-existing file classes on the design-level "
                  "model and exports the shortest sequence reaching each distinct (state, incoming operation, verdict); sequences "
@@ -197,7 +203,7 @@ def run(prop, tier):
                                     signatures_predicted=len(predicted), signatures_observed_on_tlc_schedules=len(observed_tlc),
                                     predicted_not_observed=sorted(predicted - observed_tlc)[:10],
                                     observed_not_predicted=sorted(observed_tlc - predicted)[:10]),
-            spec_invariants="P_C25_Effect P_C25_Reject P_C25_Persist MemIsFile (PolicyMC, on CanonicalClasses)",
+            spec_invariants="P_C25_Effect P_C25_Reject P_C25_Persist MemIsFile (PolicyMC, on SoundClasses)",
             trace_spec="PolicyTrace: Judge (effect / reject / persist) + JudgeQueries on every recorded step",
             known_findings=sorted(ver.known), new_violations=sorted(ver.new),
         ), time.time() - t0, len(ver.new),
@@ -206,6 +212,9 @@ def run(prop, tier):
                          "list contents are compared as sets (duplicates in a pre-existing file are one entry)",
                          "I/O errors of the file system are not injected",
                          "concurrent callers are not modelled (the operations hold one global mutex)"])
+        if rc == 0 and drift:
+            raise vp.Fatal("drift: the design-level model (Policy.tla) predicts defects the real code does not show "
+                           "(%d steps differ), e.g. %s" % (disagree, json.dumps(drift[0])))
         return rc
     finally:
         vp.cleanup(wd)
